@@ -54,6 +54,13 @@ func checkGenArgs(yylex yyLexer, call *ast.Call, gens int) {
 	}
 }
 
+// Check that a bare * in a parameter list is followed by named parameters
+func checkBareStar(yylex yyLexer, vararg *ast.Arg, kwonlyargs []*ast.Arg) {
+	if vararg == nil && len(kwonlyargs) == 0 {
+		yylex.(*yyLex).SyntaxError("named arguments must follow bare *")
+	}
+}
+
 // Set the context for expr
 func setCtx(yylex yyLexer, expr ast.Expr, ctx ast.ExprContext) {
 	// Check the elements of compound targets here: their SetCtx
@@ -495,10 +502,12 @@ typedargslist:
 	}
 |	tfpdeftests1 ',' '*' optional_tfpdef tfpdeftests
 	{
+		checkBareStar(yylex, $4, $5)
 		$$ = &ast.Arguments{Pos: $<pos>$, Args: $1, Defaults: $<exprs>1, Vararg: $4, Kwonlyargs: $5, KwDefaults: $<exprs>5}
 	}
 |	tfpdeftests1 ',' '*' optional_tfpdef tfpdeftests ',' STARSTAR tfpdef
 	{
+		checkBareStar(yylex, $4, $5)
 		$$ = &ast.Arguments{Pos: $<pos>$, Args: $1, Defaults: $<exprs>1, Vararg: $4, Kwonlyargs: $5, KwDefaults: $<exprs>5, Kwarg: $8}
 	}
 |	tfpdeftests1 ',' STARSTAR tfpdef
@@ -507,10 +516,12 @@ typedargslist:
 	}
 |	'*' optional_tfpdef tfpdeftests
 	{
+		checkBareStar(yylex, $2, $3)
 		$$ = &ast.Arguments{Pos: $<pos>$, Vararg: $2, Kwonlyargs: $3, KwDefaults: $<exprs>3}
 	}
 |	'*' optional_tfpdef tfpdeftests ',' STARSTAR tfpdef
 	{
+		checkBareStar(yylex, $2, $3)
 		$$ = &ast.Arguments{Pos: $<pos>$, Vararg: $2, Kwonlyargs: $3, KwDefaults: $<exprs>3, Kwarg: $6}
 	}
 |	STARSTAR tfpdef
@@ -589,10 +600,12 @@ varargslist:
 	}
 |	vfpdeftests1 ',' '*' optional_vfpdef vfpdeftests
 	{
+		checkBareStar(yylex, $4, $5)
 		$$ = &ast.Arguments{Pos: $<pos>$, Args: $1, Defaults: $<exprs>1, Vararg: $4, Kwonlyargs: $5, KwDefaults: $<exprs>5}
 	}
 |	vfpdeftests1 ',' '*' optional_vfpdef vfpdeftests ',' STARSTAR vfpdef
 	{
+		checkBareStar(yylex, $4, $5)
 		$$ = &ast.Arguments{Pos: $<pos>$, Args: $1, Defaults: $<exprs>1, Vararg: $4, Kwonlyargs: $5, KwDefaults: $<exprs>5, Kwarg: $8}
 	}
 |	vfpdeftests1 ',' STARSTAR vfpdef
@@ -601,10 +614,12 @@ varargslist:
 	}
 |	'*' optional_vfpdef vfpdeftests
 	{
+		checkBareStar(yylex, $2, $3)
 		$$ = &ast.Arguments{Pos: $<pos>$, Vararg: $2, Kwonlyargs: $3, KwDefaults: $<exprs>3}
 	}
 |	'*' optional_vfpdef vfpdeftests ',' STARSTAR vfpdef
 	{
+		checkBareStar(yylex, $2, $3)
 		$$ = &ast.Arguments{Pos: $<pos>$, Vararg: $2, Kwonlyargs: $3, KwDefaults: $<exprs>3, Kwarg: $6}
 	}
 |	STARSTAR vfpdef
